@@ -76,6 +76,16 @@ def _action(tag):
     return A(tag)
 
 
+DRAWN = []
+
+
+def _draw(v):
+    DRAWN.append((now(), v))
+    LOG.append((now(), "draw"))
+    return v
+
+
+builtins._symx_draw = _draw
 builtins._symx_log = _log
 builtins._symx_cond = _cond
 builtins._symx_val = _val
@@ -84,6 +94,7 @@ builtins._symx_action = _action
 
 def reset(ctx, value_specs):
     del LOG[:]
+    del DRAWN[:]
     TABLE.clear()
     VALUES.clear()
     VALUE_SPECS.clear()
@@ -178,6 +189,15 @@ def body_text(body, ind, ctxkind):
                 out += body_text(hbody, ind + 4, ctxkind)
         elif k in ("abort", "break", "continue", "return"):
             out.append(f"{pad}{k}")
+        elif k in ("dochoose", "doshuffle"):
+            items = st[1]
+            kw = "choose" if k == "dochoose" else "shuffle"
+            if all(w is None for _n, w in items):
+                out.append(f"{pad}do {kw} " + ", ".join(f"{n}()" for n, _w in items))
+            else:
+                out.append(f"{pad}do {kw} {{" + ", ".join(f"{n}(): {w}" for n, w in items) + "}")
+        elif k == "draw":
+            out.append(f"{pad}_symx_draw(DiscreteRange({st[1]}, {st[2]}))")
         elif k == "whilecond":
             out.append(f"{pad}while _symx_cond({st[1]!r}):")
             out += body_text(st[2], ind + 4, ctxkind)
@@ -274,6 +294,8 @@ class Ref:
         self.t = 0
         self.log = []
         self.running_subs = []
+        self.rng_requests = []
+        self.choice_source = lambda k, weights: 0
 
     def ev(self, e):
         self.log.append((self.t, e))
@@ -281,6 +303,18 @@ class Ref:
     def cond(self, name):
         v = self.cell(name, self.t)
         return True if v else False
+
+    def enabled(self, name):
+        """Preconditions (and invariants) of a behaviour / scenario hold now."""
+        b = self.P["behaviors"].get(name) if name in self.P.get("behaviors", {}) else self.P["subs"][name]
+        if isinstance(b, dict):
+            return all(self.cond(c) for c in list(b.get("pre", [])) + list(b.get("inv", [])))
+        return True
+
+    def draw_choice(self, weights):
+        """One weighted draw among the currently enabled items (index into that list)."""
+        self.rng_requests.append(("choices", tuple(weights), self.t))
+        return self.choice_source(len(self.rng_requests) - 1, weights)
 
     def check_inv(self, inv):
         for c in inv:
@@ -355,6 +389,26 @@ class Ref:
                         raise
             elif k in ("abort", "break", "continue", "return"):
                 raise Control(k)
+            elif k == "draw":
+                self.rng_requests.append(("randint", st[1], st[2], self.t))
+                self.ev("draw")
+            elif k in ("dochoose", "doshuffle"):
+                remaining = list(st[1])
+                while remaining:
+                    enabled = [(n, w) for n, w in remaining if self.enabled(n)]
+                    if not enabled:
+                        raise RefReject("deadlock in do choose/shuffle")
+                    if len(enabled) == 1:
+                        pick = enabled[0]
+                    else:
+                        i = self.draw_choice([1 if w is None else w for _n, w in enabled])
+                        pick = enabled[i]
+                    remaining.remove(pick)
+                    if k == "dochoose":
+                        remaining = []
+                    yield from self.run_do(pick[0], None, kind)
+                if kind == "behavior":
+                    self.check_inv(inv)
             elif k == "try":
                 yield from self.run_try(st[1], st[2], kind, inv)
             elif k == "terminate":
